@@ -275,6 +275,11 @@ def run_C03(res):
     rim = [p for p, o in zip(rim, okr) if o][: (60 if res.tier == "quick" else 1200)]
     for p in rim:
         cases.append((p, [Pos(p).hash], "1", "depth", "depth " + str(rnd.choice([3, 4, 4, 5] if res.tier == "quick" else [4, 5, 6])), True, "rim-check"))
+    # the record positions with 218 / 217 legal moves: the move-ordering buffers hold exactly 218 entries
+    for f in ("R6R/3Q4/1Q4Q1/4Q3/2Q4Q/Q4Q2/pp1Q4/kBNN1KB1 w - - 0 1", "3Q4/1Q4Q1/4Q3/2Q4R/Q4Q2/3Q4/1Q4Rp/1K1BBNNk w - - 0 1"):
+        for p in [l for l in run_driver(["feninw " + f]) if l not in ("PANIC", "bad-op")]:
+            for a in ("depth 1", "depth 2", "nodes 0", "nodes 300"):
+                cases.append((p, [Pos(p).hash], "1", a.split()[0], a, True, "max-moves"))
     # roots whose key (or whose successor's key) is a special value: 0 is what an empty table slot holds, so a fresh table "hits"
     from props_core import special_key_positions
     for p in special_key_positions(res, both=True):
@@ -610,6 +615,43 @@ def match_F10(f):
 
 
 # ------------------------------------------------------------------ C12
+def minor_piece_mates():
+    """mate-in-one roots with kings and one minor piece a side (K+B v K+N, K+B v K+B): the cornered king hemmed in by its own minor piece;
+    all eight board symmetries, both colours, every origin square of the mating bishop"""
+    out = []
+    for blocker in "nb":
+        for org in ("c8", "c6", "d5", "e4", "f3", "g2", "h1", "a6"):
+            board = {"a8": "k", "b8": blocker, "b6": "K", org: "B"}
+            for sym in range(8):
+                def tr(sq):
+                    f, r = "abcdefgh".index(sq[0]), int(sq[1]) - 1
+                    if sym & 1:
+                        f = 7 - f
+                    if sym & 2:
+                        r = 7 - r
+                    if sym & 4:
+                        f, r = r, f
+                    return f, r
+                g = [[None] * 8 for _ in range(8)]
+                for sq, pc in board.items():
+                    f, r = tr(sq)
+                    g[r][f] = pc
+                rows = []
+                for r in range(7, -1, -1):
+                    row, e = "", 0
+                    for f in range(8):
+                        if g[r][f] is None:
+                            e += 1
+                        else:
+                            row += (str(e) if e else "") + g[r][f]
+                            e = 0
+                    rows.append(row + (str(e) if e else ""))
+                fen = "/".join(rows) + " w - - 0 1"
+                out.append(fen)
+                out.append(flip_fen_colour(fen))
+    return out
+
+
 def run_C12(res):
     rnd = random.Random(res.seed)
     n = 12000 if res.tier == "quick" else 200000
@@ -623,6 +665,11 @@ def run_C12(res):
     under = [l for ch in chunks for l in ch if l and l != "bad-op"]
     res.count("mates_by_underpromotion", len(under))
     ps = under[: (40 if res.tier == "quick" else 800)] + ps
+    minor = [l for l in run_driver(["feninw " + f for f in minor_piece_mates()]) if l not in ("PANIC", "bad-op")]
+    rnd.shuffle(minor)
+    minor = minor[: (40 if res.tier == "quick" else 400)]
+    res.count("minor_piece_corner_mates", len(minor))
+    ps = minor + ps
     gs = games(res, 6 if res.tier == "quick" else 60, 80, 0, 200)
     cand = [p for g in gs for p in g]
     # mates in one met in playouts / test FENs as well
